@@ -89,6 +89,18 @@ CHECKS = {
             "programs over constructors, component-wise operators, matrix products, nested element writes and copies, compared "
             "with the reference interpreter's functional value semantics.",
             "Trusted: vf/interp.py vector/matrix semantics; integer component division only compared where exact.", "4/C04"),
+    "C02": ("exploration",
+            "Hypothesis programs from the union of all generators + a store/load-dense shape generator; differential oracle "
+            "optimize=False vs optimize=True (accept/reject, value, globals)",
+            "Every generated program is compiled at both optimisation settings; accept/reject must agree and, on every input the "
+            "unoptimised module handles, the optimised module must return exactly the same value and leave the same globals.",
+            "Trusted: the unoptimised module is the reference; wall-clock guards only ever discard.", "4/C02"),
+    "C14": ("exploration",
+            "Hypothesis programs from all generators at both optimisation settings; static IR well-formedness checker "
+            "(unique references, operand liveness, must-be-defined dataflow over all paths, branch targets, call targets)",
+            "Every compiled module is checked by an independent IR checker that reads operands through the public accessors and "
+            "runs a forward must-be-defined analysis over the instruction-level CFG the VM executes.",
+            "Trusted: vf/irwf.py CFG construction mirrors VM.__Execute; operands are resolved by reference number.", "4/C14"),
 }
 
 PENDING = {}
